@@ -72,7 +72,7 @@ def S(xs):
     return {'S': list(xs)}
 
 
-NAME_MODES = ['str', 'int0', 'empty0']        # candidate naming: 'c3' as it is | the int 3 | '' for candidate 0 (falsy names)
+NAME_MODES = ['str', 'int0', 'empty0', 'person']        # candidate naming: 'c3' as it is | the int 3 | '' for candidate 0 (falsy names)
 _CNAME = __import__('re').compile(r'c\d+')
 
 
@@ -112,6 +112,8 @@ class _Dec:
                 return Fraction(v)
             if tag == 'X':
                 return Decimal(v)
+            if tag == 'fl':
+                return float(v)
             if tag == 'D':
                 return {self._key(k): self(val) for k, val in v}
             if tag == 'L':
@@ -123,9 +125,11 @@ class _Dec:
             if tag == 'O':
                 return self.obj(v)
             raise ValueError(x)
-        if isinstance(x, str) and self.mode in ('int0', 'empty0') and _CNAME.fullmatch(x):
+        if isinstance(x, str) and self.mode in ('int0', 'empty0', 'person') and _CNAME.fullmatch(x):
             if self.mode == 'int0':
                 return int(x[1:])
+            if self.mode == 'person':       # candidate objects with identity semantics, new ones for every call
+                return self.obj(['Person', x, int(x[1:])])
             return '' if x == 'c0' else x
         return x
 
@@ -232,7 +236,10 @@ def g_ranking(rng, cands, shared=True):
     out = []
     i = 0
     while i < len(pick):
-        if shared and i + 1 < len(pick) and rng.random() < 0.15:
+        if shared and i + 2 < len(pick) and rng.random() < 0.08:
+            out.append(S(sorted(pick[i:i + 3])))
+            i += 3
+        elif shared and i + 1 < len(pick) and rng.random() < 0.15:
             out.append(S(sorted(pick[i:i + 2])))
             i += 2
         else:
@@ -302,7 +309,7 @@ DN = ['d0', 'd1', 'd2']
 
 
 def g_const(rng, inner, nd=None):
-    ds = DN[:nd or rng.randint(1, 3)]
+    ds = (CN if rng.random() < 0.12 else DN)[:nd or rng.randint(1, 3)]       # name clash: a district named like a candidate
     return D([(d, inner(rng)) for d in ds])
 
 
@@ -721,6 +728,65 @@ def _targets():
     add('BasicNominator', lambda: vcand.BasicNominator(), _c_nominate)
     add('PartyNominator', lambda: vcand.PartyNominator(), _c_nominate)
     add('PersonNominator', lambda: vcand.PersonNominator(), _c_nominate)
+    # --- rank scorers (method `scores`)
+    for nm, mk in [('Dowdall', vrs.Dowdall), ('Geometric', lambda: vrs.Geometric(3)), ('ModifiedBorda', vrs.ModifiedBorda),
+                   ('FixedTop', lambda: vrs.FixedTop(3)), ('SequenceBased', lambda: vrs.SequenceBased([5, 3, 1]))]:
+        add('scorer:' + nm, mk, lambda rng: call('scores', rng.randint(0, 6)))
+    # --- module-level functions (a fresh "instance" is the same function: only an isolated reference can expose a cache)
+    import votelib.util as vutil
+    import votelib.persist as vpers
+    import votelib.component.quota as vquota
+    import votelib.component.divisor as vdiv
+    import votelib.component.pairwin_scorer as vpws
+
+    def fn(name, f, gen):
+        add('fn:' + name, (lambda f=f: types.SimpleNamespace(call=f)), gen, cls=types.SimpleNamespace, function=True)
+    fn('core.get_n_best', vcore.get_n_best, lambda rng: call('call', g_simple(rng, zero=True), g_seats(rng)))
+    fn('core.apportion', lambda v, n: vcore.apportion(v, n, apportioner=vprop.LargestRemainder('hare')),
+       lambda rng: call('call', g_const(rng, lambda r: g_simple(r, frac=False)), g_seats(rng, 6)))
+    fn('condorcet.pairwise_wins', vcond.pairwise_wins, lambda rng: call('call', g_condorcet(rng)))
+    fn('condorcet.beat_counts', vcond.beat_counts, lambda rng: call('call', g_condorcet(rng)))
+    fn('util.sorted_votes', vutil.sorted_votes, lambda rng: call('call', g_simple(rng, zero=True)))
+    fn('util.descending_dict', vutil.descending_dict, lambda rng: call('call', g_simple(rng, zero=True)))
+    fn('util.sum_dicts', vutil.sum_dicts, lambda rng: call('call', g_simple(rng), g_simple(rng)))
+    fn('util.all_ranked_candidates', vutil.all_ranked_candidates, lambda rng: call('call', g_ranked(rng)))
+    fn('util.distribution_to_selection', vutil.distribution_to_selection, lambda rng: call('call', g_simple(rng)))
+    fn('util.exact_mean', vutil.exact_mean, lambda rng: call('call', L([g_count(rng) for _ in range(rng.randint(1, 4))])))
+    fn('sequential.initial_allocation', vseq.initial_allocation, lambda rng: call('call', g_ranked(rng)))
+    fn('sequential.eliminate_one', vseq.eliminate_one, lambda rng: call('call', g_ranked(rng, shared=False)))
+    fn('sequential.allocation_totals', vseq.allocation_totals, lambda rng: call('call', _g_allocation(rng)[1]))
+    for qn in sorted(vquota.QUOTAS):
+        fn('quota.' + qn, (lambda t, n, q=qn: vquota.get(q)(t, n)), lambda rng: call('call', g_count(rng), g_seats(rng, 5)))
+    for dn in sorted(vdiv.DIVISORS):
+        fn('divisor.' + dn, (lambda k, d=dn: vdiv.get(d)(k)), lambda rng: call('call', rng.randint(0, 6)))
+    for pn in sorted(vpws.PAIRWIN_SCORERS):
+        fn('pairwin_scorer.' + pn, (lambda c, p=pn: vpws.get(p)(c)), lambda rng: call('call', g_condorcet(rng)))
+    fn('rankscore.select_padded', vrs.select_padded, lambda rng: call('call', L([3, 2, 1][:rng.randint(0, 3)]), rng.randint(0, 5)))
+    for nm, mk in [('HighestAverages', lambda: HA('sainte_lague')), ('STAR', vcard.STAR),
+                   ('TransferableVoteSelector', lambda: vseq.TransferableVoteSelector(transferer='Hare', quota_function='hare')),
+                   ('RankedVoteValidator', lambda: vvote.RankedVoteValidator((1, 3)))]:
+        fn('persist.roundtrip:' + nm, (lambda mk=mk: vpers.to_dict(vpers.from_dict(vpers.to_dict(mk())))), lambda rng: call('call'))
+    # --- every constructor parameter with a non-default value: the sensitivity witnesses of the C19 check (leaf classes)
+    try:
+        import props.c19_classes as KL
+        import props.c19_sensitivity as SE
+        by_cls = {}
+        for e in list(Tt.values()):
+            by_cls.setdefault(e['cls'].__module__ + '.' + e['cls'].__name__, e)
+        for w in SE.load().get('found', []):
+            base = by_cls.get(w['cls'])
+            if base is None or base.get('model') or '"t": "obj"' in json.dumps(w['spec']['args']):
+                continue
+            nm = f"param:{w['cls'].rsplit('.', 1)[-1]}.{w['param']}"
+            if nm in Tt:
+                continue
+            try:
+                add(nm, (lambda sp=w['spec']: KL.build(sp)), base['gen'], param=True,
+                    **({'seed': None, 'random': True} if base.get('seed') is not None or base.get('random') else {}))
+            except Exception:
+                pass
+    except Exception:
+        pass
     # --- dispatch family: asking wrapper O around a pass-through wrapper W around leaves with different signatures
     for oname, wname, lname in DISPATCH_TARGETS:
         add(f'dispatch:{oname}:{wname}:{lname}',
@@ -1269,10 +1335,81 @@ def run_history(case):
 _ISOLATE = False        # switched on when the shrinker starts: from then on every history runs in a fresh interpreter
 
 
+_ZYGOTE_CODE = (
+    'import sys, os, json\n'
+    'sys.path[:0] = [{harness!r}, {repo!r}]\n'
+    'from props import C18\n'
+    'C18._mods()\n'                      # the library is imported, nothing of it has been called or constructed
+    'print("@@ready", flush=True)\n'
+    'for line in sys.stdin:\n'
+    '    pid = os.fork()\n'
+    '    if pid == 0:\n'
+    '        try:\n'
+    '            out = json.dumps(C18.run_history(json.loads(line)))\n'
+    '        except BaseException as e:\n'
+    '            out = json.dumps({{"zygote_error": repr(e)}})\n'
+    '        sys.stdout.write("@@" + out + "\\n"); sys.stdout.flush(); os._exit(0)\n'
+    '    os.waitpid(pid, 0)\n'
+    '    sys.stdout.write("@@done\\n"); sys.stdout.flush()\n')
+
+
+class _Zygote:
+    """a process that has imported the library and nothing else; every history is run in a fork of it, i.e. in interpreter
+    state that no call or construction of this or any other history has touched (0.1 s instead of 0.4 s per history)"""
+    proc = None
+
+    @classmethod
+    def get(cls):
+        import subprocess
+        import atexit
+        if cls.proc is None or cls.proc.poll() is not None:
+            env = dict(os.environ, VOTELIB_REPO=REPO, PYTHONDONTWRITEBYTECODE='1')
+            code = _ZYGOTE_CODE.format(harness=os.path.join(VERIF, 'harness'), repo=REPO)
+            cls.proc = subprocess.Popen([sys.executable, '-c', code], stdin=subprocess.PIPE, stdout=subprocess.PIPE,
+                                        stderr=subprocess.DEVNULL, text=True, env=env)
+            if cls.proc.stdout.readline().strip() != '@@ready':
+                raise RuntimeError('zygote did not start')
+            atexit.register(cls.close)
+        return cls.proc
+
+    @classmethod
+    def close(cls):
+        if cls.proc is not None and cls.proc.poll() is None:
+            try:
+                cls.proc.stdin.close()
+                cls.proc.wait(timeout=5)
+            except Exception:
+                cls.proc.kill()
+        cls.proc = None
+
+    @classmethod
+    def run(cls, case):
+        p = cls.get()
+        p.stdin.write(json.dumps(strip_case(case)) + '\n')
+        p.stdin.flush()
+        res = None
+        while True:
+            line = p.stdout.readline()
+            if not line:
+                raise RuntimeError('zygote died')
+            line = line.strip()
+            if line == '@@done':
+                break
+            if line.startswith('@@'):
+                res = json.loads(line[2:])
+        if res is None or 'zygote_error' in res:
+            raise RuntimeError(f'isolated run failed: {res}')
+        return res
+
+
 def run_isolated(case):
-    """run one history in a FRESH interpreter (same repo, same hash seed): state that leaked into this process from
+    """run one history in FRESH interpreter state (same repo, same hash seed): state that leaked into this process from
     earlier histories (class attributes, module globals, shared defaults, the global RNG) cannot mask or fake a failure,
     so a shrunk history and the written replay reproduce on their own"""
+    try:
+        return _Zygote.run(case)
+    except Exception:
+        _Zygote.close()
     import subprocess
     code = ('import sys, json\n'
             f'sys.path[:0] = [{os.path.join(VERIF, "harness")!r}, {REPO!r}]\n'
@@ -1292,8 +1429,8 @@ def impl(case):
         raise ValueError(case['op'])
     # every library call inside runs under its own 3 s alarm (`outcome`): common.call_with_timeout does not nest (the inner
     # alarm(0) cancels the outer alarm), so there is no outer watchdog here
-    if case.get('foreign') is not None:
-        # 'foreign object first': the whole history runs in a fresh interpreter (so the foreign objects really are the
+    if case.get('foreign') is not None or case.get('ref_calls') is not None:
+        # 'foreign object first' / 'earlier calls first': the whole history runs in a fresh interpreter (so the foreign objects really are the
         # first of their classes the process sees), and the reference for the other objects' calls comes from ANOTHER
         # fresh interpreter that never sees the foreign objects — module-level state persists in-process, so neither a
         # fresh instance nor a reference computed earlier or later in the same process is a reference
@@ -1309,7 +1446,10 @@ def impl(case):
 
 def without_foreign(case):
     """the history without the calls on the foreign objects; index map call -> call of the reduced history"""
-    keep = [i for i, c in enumerate(case['calls']) if c['t'] not in case['foreign']]
+    if case.get('ref_calls') is not None:       # reference = only these calls, in an interpreter that never saw the others
+        keep = [i for i in case['ref_calls'] if i < len(case['calls'])]
+    else:
+        keep = [i for i, c in enumerate(case['calls']) if c['t'] not in case['foreign']]
     used = sorted(set(case['calls'][i]['t'] for i in keep))
     remap = {t: j for j, t in enumerate(used)}
     sub = {'op': 'history', 'targets': [case['targets'][t] for t in used],
@@ -1347,8 +1487,9 @@ def oracle(case, obs):
                 continue
             for run in ('shared', 'fresh'):
                 if obs[run][i] != r:
-                    out.append((f"depends_on_other_object:{t['name']}",
-                                f"call {i} on {t['name']} ({run} instance) after calls on {[case['targets'][f] for f in case['foreign']]}: "
+                    kind = 'depends_on_other_object' if case.get('foreign') is not None else 'depends_on_earlier_call'
+                    out.append((f"{kind}:{t['name']}",
+                                f"call {i} on {t['name']} ({run} instance) after calls on {[case['targets'][f] for f in case.get('foreign') or [c['t']]]}: "
                                 f"{json.dumps(obs[run][i])[:160]} but {json.dumps(r)[:160]} in an interpreter that never saw them"))
                     break
             else:
@@ -1919,6 +2060,8 @@ def shrink_candidates(case):
                         calls=[dict(c, t=remap[c['t']]) for c in cs])
             if case.get('foreign') is not None:
                 cand['foreign'] = [remap[f] for f in case['foreign'] if f in remap]
+            if case.get('ref_calls') is not None:
+                cand['ref_calls'] = [j - (j > i) for j in case['ref_calls'] if j != i]
             yield cand
     # drop a ballot / dict entry of the first argument, a keyword argument
     for i, c in enumerate(calls):
